@@ -13,7 +13,8 @@ What is modelled
   * `lsDens`, `logLik`     a location-scale density `g((x-l)/s)/s` and the log-likelihood of a sample
   * `…LogPdf`              the documented densities' logarithms in closed form (Weibull-3p,
                            exponentiated Weibull, normal, log-normal, generalized gamma, von Mises,
-                           gamma as the example of a `ScipyDistribution` subclass)
+                           gamma and Gumbel as the examples of `ScipyDistribution` subclasses: one with a
+                           shape parameter, one with location and scale only)
   * `normalFit`            scipy's `norm.fit`: mean and population standard deviation
   * `lognormalFit`         scipy's analytic branch of `lognorm.fit(floc=0)` followed by virocon's
                            `_scale` setter: `mu = log(exp(mean(log x)))`, sigma = rms deviation of the logs
@@ -86,6 +87,13 @@ def gammaLogPdf [Sub α] [Mul α] [Div α] [OfNat α 1]
     (log lgamma : α → α) (a l s x : α) : α :=
   let z := (x - l) / s
   ((a - 1) * log z - z - lgamma a - log s)
+
+/-- Gumbel with location and scale (a `ScipyDistribution` subclass of `scipy.stats.gumbel_r`, which has no
+shape parameter): `-log s - z - exp(-z)`, `z = (x-l)/s` -/
+def gumbelLogPdf [Sub α] [Div α] [Neg α]
+    (log exp : α → α) (l s x : α) : α :=
+  let z := (x - l) / s
+  (-(log s) - z - exp (-z))
 
 /-! ### closed-form estimators -/
 
